@@ -256,8 +256,18 @@ pub enum Op {
         strategy: Strategy,
         migration: Migration,
         result: ResSpec,
+        /// `Layer::types()` answers this once a strategy/create/update callback has run (a layer
+        /// may learn its types while it is being handled); None = fixed types
+        #[serde(default)]
+        types_after: Option<(bool, bool, bool)>,
     },
-    WriteMetadata { layer: usize, meta: MetaVal },
+    WriteMetadata {
+        layer: usize,
+        meta: MetaVal,
+        /// use the oldest layer reference this build still holds for the layer, not the latest
+        #[serde(default)]
+        older_ref: bool,
+    },
     WriteEnv { layer: usize, env: EnvSpec },
     ReadEnv { layer: usize, mix: u64 },
     EnvCycle { layer: usize, times: u32 },
